@@ -46,6 +46,10 @@ COMPONENTS = {
     'refsets': z3.ArraySort(I, SetR),     # collections of references (generator of lists)
     'fs_len': z3.ArraySort(I, I),                     # python lists of formulas: length
     'fs_el': z3.ArraySort(I, z3.ArraySort(I, F)),     #                          elements by index
+    # BDD nodes (BDD/BDD.py): fields by node reference; weak parent sets as sets of references
+    'b_var': z3.ArraySort(I, H), 'b_low': z3.ArraySort(I, I), 'b_high': z3.ArraySort(I, I),
+    'b_term': z3.ArraySort(I, B), 'b_val': z3.ArraySort(I, B),
+    'b_fl': z3.ArraySort(I, SetR), 'b_fh': z3.ArraySort(I, SetR),
     'fld__next': z3.ArraySort(I, I),
     'fld__labels': z3.ArraySort(I, I),
     'fld_S0': z3.ArraySort(I, I),
@@ -161,7 +165,7 @@ def sv_ref(ty, t):
     return SV(ty, t)
 
 
-REF_TYPES = ('set', 'list', 'pairlist', 'dict', 'fdict', 'graph', 'kripke', 'keys', 'reflist', 'fseq')
+REF_TYPES = ('set', 'list', 'pairlist', 'dict', 'fdict', 'graph', 'kripke', 'keys', 'reflist', 'fseq', 'bnode')
 
 
 class Coll(object):
